@@ -18,6 +18,7 @@ global size_of usize == 8;
 //@extract enum renet/src/packet.rs Packet
 //@extract struct renet/src/channel/unreliable.rs SendChannelUnreliable
 
+//@include contracts/shared/packet_bytes_specs.rs
 //@include contracts/shared/packet_specs.rs
 //@include contracts/shared/slice_specs.rs
 //@include contracts/shared/send_unreliable_specs.rs
